@@ -300,6 +300,6 @@ pub fn run(driver: &Driver, seed: u64, thorough: bool, replay: Option<&Value>) -
     }
     let _ = NoResolve;
     corr::run(driver, &mut rep, seed, thorough);
-    rep.oracles.push(files_oracle(seed, 0, if thorough { 20_000 } else { 400 }));
+    rep.oracles.push(files_oracle(seed, 0, if thorough { 30_000 } else { 1500 }));
     rep
 }
